@@ -2,7 +2,7 @@
 //! TupleVariation::accumulate_{dense,sparse}_deltas (what skrifa runs for every gvar tuple).
 //! Pulled into read-fonts/src/tables/variations.rs as `mod verif_harness`.
 //!
-//! @bound <= 8 symbolic bytes of packed deltas (symbolic length), a destination of <= 3 points (symbolic count); unwind 10
+//! @bound sizes per harness
 #![allow(unused, clippy::all)]
 
 #[cfg(not(kani))]
@@ -43,55 +43,65 @@ fn spec_delta(b: &[u8], want: usize) -> Option<i32> {
     None
 }
 
+// @bound 4 symbolic bytes (symbolic length), destination of <= 2 deltas: never panics (a run longer than the destination, a truncated run and an empty buffer are errors); unwind 6
 // @c01
 // @c20
-// @timeout 600
 #[cfg_attr(kani, kani::proof)]
-#[cfg_attr(kani, kani::unwind(10))]
-pub fn c10_read_dense_deltas_total_and_matches_spec() {
-    let buf: [u8; 8] = kani::any();
+#[cfg_attr(kani, kani::unwind(6))]
+pub fn c10_read_dense_deltas_total() {
+    let buf: [u8; 4] = kani::any();
     let len: usize = kani::any();
-    kani::assume(len <= 8);
+    kani::assume(len <= 4);
     let n: usize = kani::any();
-    kani::assume(n <= 3);
-    let mut dest = [0i32; 3];
+    kani::assume(n <= 2);
+    let mut dest = [0i32; 2];
     let mut cursor = FontData::new(&buf[..len]).cursor();
-    // a run that is longer than the destination, a truncated run, an empty buffer: Err, never a panic
     let r = read_dense_deltas(&mut cursor, &mut dest[..n], |d, v| *d = v);
-    if r.is_ok() {
-        let k: usize = kani::any();
-        kani::assume(k < n);
-        assert!(Some(dest[k]) == spec_delta(&buf[..len], k));
-        kani::cover!(n == 3 && buf[0] & 0xC0 == 0x40, "three word deltas");
-    }
-    kani::cover!(r.is_err() && len > 2, "rejected");
+    kani::cover!(r.is_ok() && n == 2, "two deltas read");
+    kani::cover!(r.is_err() && len > 1, "rejected");
 }
 
-// @c01
-// @c20
-// @timeout 600
+// @bound 6 symbolic bytes, destination of exactly 2 deltas: the values stored equal the spec decoding; unwind 8
+// @tier thorough
+// @timeout 3000
+// @mem 24
 #[cfg_attr(kani, kani::proof)]
-#[cfg_attr(kani, kani::unwind(10))]
+#[cfg_attr(kani, kani::unwind(8))]
+pub fn c10_read_dense_deltas_match_spec() {
+    let buf: [u8; 6] = kani::any();
+    let mut dest = [0i32; 2];
+    let mut cursor = FontData::new(&buf).cursor();
+    let r = read_dense_deltas(&mut cursor, &mut dest, |d, v| *d = v);
+    if r.is_ok() {
+        let k: usize = kani::any();
+        kani::assume(k < 2);
+        assert!(Some(dest[k]) == spec_delta(&buf, k));
+    }
+    kani::cover!(r.is_ok(), "decoded");
+}
+
+// @bound 4 symbolic bytes of deltas, 3 symbolic bytes of packed point numbers, count <= 2: never panics; unwind 6
+// @c01 thorough
+// @c20 thorough
+// @tier thorough
+// @timeout 3000
+// @mem 24
+#[cfg_attr(kani, kani::proof)]
+#[cfg_attr(kani, kani::unwind(6))]
 pub fn c10_read_sparse_deltas_total() {
-    let buf: [u8; 8] = kani::any();
+    let buf: [u8; 4] = kani::any();
     let len: usize = kani::any();
-    kani::assume(len <= 8);
-    let pts: [u8; 4] = kani::any();
-    let plen: usize = kani::any();
-    kani::assume(plen <= 4);
+    kani::assume(len <= 4);
+    let pts: [u8; 3] = kani::any();
     let count: usize = kani::any();
-    kani::assume(count <= 3);
-    let (point_numbers, _rest) = PackedPointNumbers::split_off_front(FontData::new(&pts[..plen]));
+    kani::assume(count <= 2);
+    let (point_numbers, _rest) = PackedPointNumbers::split_off_front(FontData::new(&pts));
     let mut cursor = FontData::new(&buf[..len]).cursor();
-    let mut dest = [0i32; 3];
     let mut calls = 0usize;
-    let r = read_sparse_deltas(&mut cursor, &point_numbers, count, |ix, v| {
-        if ix < 3 {
-            dest[ix] = v;
-        }
+    let r = read_sparse_deltas(&mut cursor, &point_numbers, count, |_ix, _v| {
         calls += 1;
     });
-    kani::cover!(r.is_ok() && calls == 3, "three sparse deltas applied");
+    kani::cover!(r.is_ok() && calls == 2, "two sparse deltas applied");
 }
 
 #[cfg(all(test, not(kani)))]
